@@ -246,8 +246,13 @@ OBJ_ID = "c07.target"
 
 
 def stop_all():
+    import os
+    import shutil
     for s in list(_SERVED.values()):
         s.stop()
+        path = getattr(s, "v_unix_path", None)
+        if path:
+            shutil.rmtree(os.path.dirname(path), ignore_errors=True)
     _SERVED.clear()
 
 
@@ -258,7 +263,13 @@ def served(servertype):
         if s is not None:
             s.stop()
         live.quiet_logs()
-        s = live.Served(servertype)
+        if servertype.endswith("-unix"):
+            # the same daemon behind a Unix domain socket (the peer address of such a connection is not a (host, port) pair)
+            path = live.unix_socket_path()
+            s = live.Served(servertype[:-5], unixsocket=path)
+            s.v_unix_path = path
+        else:
+            s = live.Served(servertype)
         s.daemon.register(target_class()(), OBJ_ID)
         s.v_connections = 0
         _SERVED[servertype] = s
@@ -1065,6 +1076,7 @@ def SHARDS(tier):
     # quick: server type x serializer; thorough: the same twice (part 1 only searches, with its own seed)
     parts = (0, 1) if tier == "thorough" else (0,)
     return [{"servertype": t, "ser": s, "part": p} for p in parts for t in SERVERTYPES for s in SERIALIZERS] + \
+        [{"servertype": t + "-unix", "ser": s, "part": "unix"} for i, t in enumerate(SERVERTYPES) for s in SERIALIZERS[i::2]] * len(parts) + \
         [{"servertype": "thread", "ser": s, "part": "concurrent"} for s in SERIALIZERS] * len(parts)
 
 
@@ -1100,6 +1112,18 @@ def codec_cases(ser):
 
 def run(ctx):
     servertype, ser, part = ctx.shard["servertype"], ctx.shard["ser"], ctx.shard.get("part", 0)
+    if part == "unix":
+        try:
+            # (the full enumeration runs over TCP; here: every call kind with a few classes + the special shapes + a short search)
+            for kind in KINDS:
+                for ns, name in [("builtins", "ValueError"), ("builtins", "KeyError"), ("builtins", "OSError"), ("pyro", "NamingError")]:
+                    case = {"level": "live", "servertype": servertype, "ser": ser, "kind": kind, "k": 1 if kind in ("batch-middle", "batch-last", "stream") else 0,
+                            "spec": canonical_spec(ns, name)}
+                    ctx.observe(case, run_case(case), _nontrivial(case), _labels(case))
+            ctx.search(case_strategy(servertype, ser), run_case, ctx.n(120, 1500), nontrivial=_nontrivial, labels=_labels, name="unix", max_rounds=3)
+        finally:
+            stop_all()
+        return
     if part == "concurrent":
         try:
             ctx.search(concurrent_strategy(servertype, ser), run_case, ctx.n(60, 600), nontrivial=_nontrivial, labels=_labels, name="concurrent", max_rounds=3)
@@ -1114,8 +1138,14 @@ def run(ctx):
                 ctx.observe(case, v, _nontrivial(case), _labels(case))
             ctx.search(codec_strategy(ser), run_case, ctx.n(200, 6000), nontrivial=_nontrivial, labels=_labels, name="codec", max_rounds=8)
         if part == 0:
+            hung = set()        # classes for which a call got no reply at all (each such case costs the whole hang guard)
             for case in enumerated_cases(servertype, ser, ctx.tier):
+                key = (case["spec"]["ns"], case["spec"]["cls"], pathgroup(case["kind"]))
+                if key in hung:
+                    continue
                 v = run_case(case)
+                if any(":no-reply" in x.signature for x in v):
+                    hung.add(key)
                 ctx.observe(case, v, _nontrivial(case), _labels(case))
         ctx.search(case_strategy(servertype, ser), run_case, ctx.n(500, 5000), nontrivial=_nontrivial, labels=_labels,
                    name="live%d" % part, max_rounds=8)
